@@ -43,14 +43,13 @@ SPEC = dict(
         'min': dict(file=H, sig=r'static constexpr time_point min\(\) noexcept', within=TP),
         'seconds_part': dict(file=H, sig=r'constexpr std::int64_t seconds_part\(\) const noexcept', within=TP),
         'nanoseconds_part': dict(file=H, sig=r'constexpr long long nanoseconds_part\(\) const noexcept', within=TP),
-        'normalize': dict(file=H, sig=r'inline void monotonic_clock::time_point::normalize\(\) noexcept', must_contain=[r'extraSeconds']),
-        'from_seconds_and_nanoseconds': dict(file=H, sig=r'monotonic_clock::time_point::from_seconds_and_nanoseconds\(\s*std::int64_t seconds, long long nanoseconds\) noexcept',
-                                             must_contain=[r'normalize']),
-        'plus_eq': dict(file=H, sig=r'monotonic_clock::time_point::operator\+=\(\s*const std::chrono::duration<Rep, Ratio>& d\) noexcept', must_contain=[r'seconds_ \+=']),
-        'minus_eq': dict(file=H, sig=r'monotonic_clock::time_point::operator-=\(\s*const std::chrono::duration<Rep, Ratio>& d\) noexcept', must_contain=[r'seconds_ -=']),
+        'normalize': dict(file=H, sig=r'inline void monotonic_clock::time_point::normalize\(\) noexcept'),
+        'from_seconds_and_nanoseconds': dict(file=H, sig=r'monotonic_clock::time_point::from_seconds_and_nanoseconds\(\s*std::int64_t seconds, long long nanoseconds\) noexcept'),
+        'plus_eq': dict(file=H, sig=r'monotonic_clock::time_point::operator\+=\(\s*const std::chrono::duration<Rep, Ratio>& d\) noexcept'),
+        'minus_eq': dict(file=H, sig=r'monotonic_clock::time_point::operator-=\(\s*const std::chrono::duration<Rep, Ratio>& d\) noexcept'),
         'plus_d': dict(file=H, sig=r'friend time_point operator\+' + FRIEND_D, within=TP),
         'minus_d': dict(file=H, sig=r'friend time_point operator-' + FRIEND_D, within=TP),
-        'minus': dict(file=H, sig=r'operator-' + FRIEND_AB, within=TP, must_contain=[r'return duration']),
+        'minus': dict(file=H, sig=r'operator-' + FRIEND_AB, within=TP),
         'eq': dict(file=H, sig=r'friend bool operator==' + FRIEND_AB, within=TP),
         'ne': dict(file=H, sig=r'friend bool operator!=' + FRIEND_AB, within=TP, ctx=cmp_ctx),
         'lt': dict(file=H, sig=r'friend bool operator<' + FRIEND_AB, within=TP),
